@@ -54,10 +54,28 @@ def run(ck):
         where = f.base if not f.is_lambda else "lambda in " + strip_tmpl(f.d.get("parentName") or "")
         ck.ob("C08-R1", "caller-of:removePeer<-%s" % where.replace("Pistache::", ""), ok, e.loc, f,
               "single release path" if ok else "%s releases a peer without going through the disconnection notification" % where)
+    IDLE = "Pistache::Http::TransportImpl::checkIdlePeers"
+
+    def only_a_continuation(lf, depth=3):
+        """lf is a lambda that runs only as a continuation: it is handed to a then() call, or it is invoked only from lambdas of the same
+        function that are"""
+        own_ = prog.owner(lf)
+        users = [own_] + prog.lambdas_in(own_)
+        as_cont = any(strip_tmpl(c.get("callee") or "").endswith("Promise::then") and any(a.get("lam") == lf.name for a in (c.get("args") or []))
+                      for u in users for c in u.events("call"))
+        invokers = [u for u in users for c in u.events("call") if (c.get("callee") or "") == lf.name]
+        if not as_cont and not invokers:
+            return False
+        return all(u.is_lambda and u.id != lf.id and depth > 0 and only_a_continuation(u, depth - 1) for u in invokers)
+
     for e in prog.call_sites(T + "handlePeerDisconnection"):
         f = e.func
         where = f.base if not f.is_lambda else "lambda in " + strip_tmpl(f.d.get("parentName") or "")
-        ok = where in (T + "handleIncoming", "lambda in Pistache::Http::TransportImpl::checkIdlePeers")
+        ok = where in (T + "handleIncoming", "lambda in " + IDLE)
+        if not ok and f.is_lambda and lib.only_reached_from(prog, prog.owner(f), (IDLE,)) and only_a_continuation(f):
+            # the idle check was split into helpers: still a continuation (of the queued 408), in code reached from the idle check only
+            ok = True
+            where = "lambda in " + IDLE
         ck.ob("C08-R1", "caller-of:handlePeerDisconnection<-%s" % where.replace("Pistache::", ""), ok, e.loc, f, "called from %s" % where)
     nclose = 0
     for f in prog.library_funcs():
